@@ -45,6 +45,7 @@ type opJ struct {
 	P int    `json:"p,omitempty"`
 	B bool   `json:"b,omitempty"` // fresh / live
 	S bool   `json:"s,omitempty"` // fresh handle requested for the SAME scope as the one obtained before Shutdown
+	D int    `json:"d,omitempty"` // metric flush with B=false: the context is not cancelled yet but expires after D ms
 }
 
 type scenario struct {
@@ -58,6 +59,7 @@ type scenario struct {
 	Seed    uint64   `json:"seed,omitempty"`
 	Fails   []int    `json:"fails,omitempty"` // fail: processors whose ForceFlush / Shutdown report an error
 	Reg     int      `json:"reg,omitempty"`   // reader / rstorm: providers the reader was handed to
+	Slow    int      `json:"slow,omitempty"`  // metric: every Export of a periodic reader's exporter takes this many ms
 	BudgetMs int     `json:"budget_ms,omitempty"` // lstorm / mstorm: stop after this long (at least 20 rounds)
 }
 
@@ -304,6 +306,7 @@ type countMetricExp struct {
 	id    int
 	inner sdkmetric.Exporter
 	rec   *recorder
+	slow  time.Duration // every Export takes this long
 }
 
 func (e *countMetricExp) Temporality(k sdkmetric.InstrumentKind) metricdata.Temporality {
@@ -314,6 +317,9 @@ func (e *countMetricExp) Aggregation(k sdkmetric.InstrumentKind) sdkmetric.Aggre
 }
 func (e *countMetricExp) Export(ctx context.Context, rm *metricdata.ResourceMetrics) error {
 	e.rec.xcall(e.id, "KExport")
+	if e.slow > 0 {
+		time.Sleep(e.slow)
+	}
 	return e.inner.Export(ctx, rm)
 }
 func (e *countMetricExp) ForceFlush(ctx context.Context) error {
@@ -337,7 +343,7 @@ func childMetric(sc scenario) resultJ {
 			r = sdkmetric.NewManualReader()
 		case "RPeriodic XStd":
 			e, _ := stdoutmetric.New(stdoutmetric.WithWriter(out))
-			r = sdkmetric.NewPeriodicReader(&countMetricExp{i, e, rec}, sdkmetric.WithInterval(time.Hour), sdkmetric.WithTimeout(sdkTimeout))
+			r = sdkmetric.NewPeriodicReader(&countMetricExp{id: i, inner: e, rec: rec, slow: time.Duration(sc.Slow) * time.Millisecond}, sdkmetric.WithInterval(time.Hour), sdkmetric.WithTimeout(sdkTimeout))
 		default: // RPeriodic XNil
 			r = sdkmetric.NewPeriodicReader(nil, sdkmetric.WithInterval(time.Hour), sdkmetric.WithTimeout(sdkTimeout))
 		}
@@ -372,7 +378,13 @@ func childMetric(sc scenario) resultJ {
 			var rm metricdata.ResourceMetrics
 			ob.Err = errClass(readers[o.P%len(readers)].Collect(context.Background(), &rm))
 		case "flush":
-			ob.Err = errClass(mp.ForceFlush(ctxFor(o.B)))
+			if !o.B && o.D > 0 { // the caller's deadline expires while the (slow) export is in flight
+				ctx, cancel := context.WithTimeout(context.Background(), time.Duration(o.D)*time.Millisecond)
+				ob.Err = errClass(mp.ForceFlush(ctx))
+				cancel()
+			} else {
+				ob.Err = errClass(mp.ForceFlush(ctxFor(o.B)))
+			}
 		case "shutdown":
 			ob.Err = errClass(mp.Shutdown(ctxFor(o.B)))
 		}
@@ -635,7 +647,7 @@ func buildMetric(kinds []string, rec *recorder, out *syncBuf) (*sdkmetric.MeterP
 			r = sdkmetric.NewManualReader()
 		case "RPeriodic XStd":
 			e, _ := stdoutmetric.New(stdoutmetric.WithWriter(out))
-			r = sdkmetric.NewPeriodicReader(&countMetricExp{i, e, rec}, sdkmetric.WithInterval(time.Hour), sdkmetric.WithTimeout(sdkTimeout))
+			r = sdkmetric.NewPeriodicReader(&countMetricExp{id: i, inner: e, rec: rec}, sdkmetric.WithInterval(time.Hour), sdkmetric.WithTimeout(sdkTimeout))
 		default: // RPeriodic XNil
 			r = sdkmetric.NewPeriodicReader(nil, sdkmetric.WithInterval(time.Hour), sdkmetric.WithTimeout(sdkTimeout))
 		}
@@ -842,15 +854,52 @@ type outcome struct {
 	res     resultJ
 	crashed bool
 	hung    bool
+	skipped bool // not run: three scenarios of its kind had already exceeded their watchdog
 	log     string
 }
 
 var (
 	kindTimeMu sync.Mutex
 	kindTime   = map[string]time.Duration{}
+	hungByKind = map[string]int{}
 )
 
-func runChild(sc scenario) outcome { return runChildT(sc, 90*time.Second) }
+// childWatchdog: a sequence takes milliseconds, a storm child a few seconds (its own time budget).
+func childWatchdog(sc scenario) time.Duration {
+	if strings.HasSuffix(sc.Kind, "storm") {
+		return 90 * time.Second
+	}
+	return 20 * time.Second
+}
+
+func runChild(sc scenario) outcome { return runChildT(sc, childWatchdog(sc)) }
+
+// refScenario: a trivial sequence known to terminate, run over and over next to a re-run (see below).
+var refScenario = scenario{Kind: "metric", Kinds: []string{"RPeriodic XStd"}, Ops: []opJ{{K: "add"}, {K: "flush", B: true}, {K: "shutdown", B: true}}}
+
+// rerunAlone runs sc once more, alone, while reference children are run one after the other; it returns the
+// outcome and how many reference children completed (correctly) in the meantime.
+func rerunAlone(sc scenario, d time.Duration) (outcome, int) {
+	stop := make(chan struct{})
+	refs := make(chan int, 1)
+	go func() {
+		n := 0
+		for {
+			select {
+			case <-stop:
+				refs <- n
+				return
+			default:
+			}
+			if o := runChildT(refScenario, d); !o.hung && !o.crashed && len(o.res.Obs) == len(refScenario.Ops) {
+				n++
+			}
+		}
+	}()
+	o := runChildT(sc, d)
+	close(stop)
+	return o, <-refs
+}
 
 func runChildT(sc scenario, d time.Duration) outcome {
 	in, _ := json.Marshal(sc)
@@ -889,17 +938,6 @@ func liveCtx(kind string, o opJ) bool {
 		return o.B
 	}
 	return true
-}
-
-// machineIdle: 1-minute load average below half the number of CPUs.
-func machineIdle() bool {
-	b, err := os.ReadFile("/proc/loadavg")
-	if err != nil {
-		return true
-	}
-	var l1 float64
-	fmt.Sscan(string(b), &l1)
-	return l1 < float64(runtime.NumCPU())/2
 }
 
 func tailStr(s string, n int) string {
@@ -1074,11 +1112,24 @@ func genMetric(r *vgen.Rand) scenario {
 		sc.Kinds = append(sc.Kinds, k)
 	}
 	nops := r.Range(2, 14)
+	periodic := false
+	for _, k := range sc.Kinds {
+		periodic = periodic || k == "RPeriodic XStd"
+	}
+	if periodic && r.Chance(1, 4) {
+		// slow exporter, ForceFlush whose caller gives up while the export is in flight, then (mostly) Shutdown
+		sc.Slow = r.Range(100, 300)
+		nops = r.Range(2, 5)
+	}
 	shutAt := r.Intn(nops + 2)
 	for i := 0; i < nops; i++ {
 		var o opJ
 		x := r.Intn(10)
 		switch {
+		case sc.Slow > 0 && i == 0:
+			o = opJ{K: "flush", D: r.Range(10, 50)}
+		case sc.Slow > 0 && i == 1 && r.Chance(3, 4):
+			o = opJ{K: "shutdown", B: true}
 		case i == shutAt:
 			o = opJ{K: "shutdown", B: !r.Chance(1, 5)}
 		case x < 4:
@@ -1164,6 +1215,11 @@ func main() {
 			Ops: []opJ{{K: "start"}, {K: "shutdown", B: true}, {K: "start", B: true, S: true}, {K: "end", P: 1}, {K: "end", P: 0}}},
 		scenario{Kind: "metric", Kinds: []string{"RManual", "RPeriodic XStd"},
 			Ops: []opJ{{K: "add"}, {K: "shutdown", B: true}, {K: "add", B: true, S: true}, {K: "flush", B: true}}},
+		// slow exporter; the ForceFlush caller's context expires while the export is in flight; Shutdown must still return
+		scenario{Kind: "metric", Kinds: []string{"RPeriodic XStd"}, Slow: 200,
+			Ops: []opJ{{K: "add"}, {K: "flush", D: 20}, {K: "shutdown", B: true}, {K: "collect", P: 0}}},
+		scenario{Kind: "metric", Kinds: []string{"RPeriodic XStd", "RManual"}, Slow: 120,
+			Ops: []opJ{{K: "flush", D: 40}, {K: "flush", B: true}, {K: "add"}, {K: "shutdown", B: true}, {K: "shutdown", B: true}}},
 		scenario{Kind: "log", Kinds: []string{"LSimple XStd", "LBatch XStd"},
 			Ops: []opJ{{K: "emit"}, {K: "shutdown", B: true}, {K: "emit", B: true, S: true}, {K: "flush", B: true}}},
 	)
@@ -1247,10 +1303,20 @@ func main() {
 			go func(i int) {
 				defer wg.Done()
 				defer func() { <-sem }()
+				kindTimeMu.Lock()
+				skip := hungByKind[scs[i].Kind] >= 3
+				kindTimeMu.Unlock()
+				if skip {
+					outs[i].skipped = true
+					return
+				}
 				t0 := time.Now()
 				outs[i] = runChild(scs[i])
 				kindTimeMu.Lock()
 				kindTime[scs[i].Kind] += time.Since(t0)
+				if outs[i].hung {
+					hungByKind[scs[i].Kind]++
+				}
 				kindTimeMu.Unlock()
 			}(i)
 		}
@@ -1260,11 +1326,16 @@ func main() {
 	pool(6, func(sc scenario) bool { return !spinning(sc) })
 	pool(2, spinning) // these children spin on 3-8 cores each: two at a time
 
-	// A child that exceeded its watchdog, or a call made with a live context that came back with a
-	// context error (only an SDK-internal timeout under starvation can do that), is INCONCLUSIVE: the
-	// scenario is re-run alone, with a longer watchdog, up to twice. Still inconclusive: a hang on an
-	// idle machine is reported (Stuck), anything else is dropped from the verdict and counted.
+	// A child that exceeded its watchdog, or a call made with a live context that came back with a context
+	// error (only an SDK-internal timeout under starvation can do that), is re-run ONCE, alone, while trivial
+	// reference children are run one after the other. Exceeds its watchdog again although at least 5
+	// reference children completed in the meantime: the machine served this harness, the sequence hangs:
+	// "Stuck", a VIOLATION (further hanging scenarios are then not re-run). Otherwise (starved machine, or a
+	// context error again) the scenario is dropped from the verdict and counted.
 	inconclusive := func(i int) string {
+		if outs[i].skipped {
+			return "skipped"
+		}
 		if outs[i].hung {
 			return "watchdog"
 		}
@@ -1280,22 +1351,37 @@ func main() {
 	}
 	dropped := map[int]string{}
 	retried := 0
-	retryBudget := time.Duration(o.Count(150, 900)) * time.Second // total time spent on re-runs
+	stuckRefs := map[int]int{}
+	established := false
+	retryBudget := time.Duration(o.Count(90, 900)) * time.Second // total time spent on re-runs
 	retryStart := time.Now()
 	for i := range scs {
 		why := inconclusive(i)
-		for attempt := 0; why != "" && attempt < 2 && time.Since(retryStart) < retryBudget; attempt++ {
-			retried++
-			outs[i] = runChildT(scs[i], 3*time.Minute)
-			why = inconclusive(i)
-		}
 		if why == "" {
 			continue
 		}
-		if why == "watchdog" && machineIdle() {
-			continue // a genuine hang: reported below as a direct violation
+		if why == "skipped" {
+			dropped[i] = "not run: three scenarios of this kind had already exceeded their watchdog"
+			continue
 		}
-		dropped[i] = why
+		if established && why == "watchdog" {
+			dropped[i] = "exceeded its watchdog; not re-run: a hang is already established"
+			continue
+		}
+		if time.Since(retryStart) < retryBudget {
+			retried++
+			var refs int
+			outs[i], refs = rerunAlone(scs[i], max(childWatchdog(scs[i]), 30*time.Second))
+			why = inconclusive(i)
+			if why == "watchdog" && refs >= 5 {
+				stuckRefs[i] = refs
+				established = true
+				continue // a genuine hang: reported below as a direct violation
+			}
+		}
+		if why != "" {
+			dropped[i] = why
+		}
 	}
 	kt := map[string]string{}
 	for k, d := range kindTime {
@@ -1325,7 +1411,7 @@ func main() {
 			continue
 		}
 		if oc.hung {
-			w.Violation("Stuck: child process running the sequence hung (no result within its watchdog, re-run twice alone on an idle machine)", desc)
+			w.Violation(fmt.Sprintf("Stuck: child process running the sequence hung (no result within its watchdog, twice, the second time alone while %d reference child processes ran to completion)", stuckRefs[i]), desc)
 			continue
 		}
 		if oc.crashed {
